@@ -78,9 +78,16 @@ def run(case, target=None, extra_callbacks=(), step_cap=1500):
     r.a, r.P, r.evs, r.snaps = a, P, evs, snaps
     for ev in evs:
         ev.direction0 = ev.direction
+    def monitored(n_call):
+        # (optionally each call monitors its own subset of the events)
+        if case.get("call_events") is None:
+            return evs
+        return [evs[i] for i in case["call_events"][n_call]]
+    r.calls_end = []
     for n_call, tgt in enumerate(case.get("pre_targets", [])):
         # the span is covered by several integrate() calls, all of them with the events monitored
-        r.err = traj.run_integrate(a, np.float64(tgt), step_limit=step_cap, events=evs, callbacks=[snap] + list(extra_callbacks))
+        r.err = traj.run_integrate(a, np.float64(tgt), step_limit=step_cap, events=monitored(n_call), callbacks=[snap] + list(extra_callbacks))
+        r.calls_end.append(len(a))
         if r.err is not None:
             return r
         if n_call == 0 and case.get("dir_after"):
@@ -88,7 +95,7 @@ def run(case, target=None, extra_callbacks=(), step_cap=1500):
             for ev, d in zip(evs, case["dir_after"]):
                 if d is not None:
                     ev.direction = d
-    r.err = traj.run_integrate(a, target, step_limit=step_cap, events=evs, callbacks=[snap] + list(extra_callbacks))
+    r.err = traj.run_integrate(a, target, step_limit=step_cap, events=monitored(len(case.get("pre_targets", []))), callbacks=[snap] + list(extra_callbacks))
     return r
 
 
